@@ -64,7 +64,7 @@ man = {
  "version": 1,
  "setup_cmd": ". ./env.sh && mkdir -p bin evidence && cd checker && go build -o ../bin/gtcheck ./cmd/gtcheck",
  "hooks": {"guard": "verif", "enable": "none needed: the analysis reads /repo's sources as they are (no instrumentation); -tags verif would enable hooks if any existed",
-           "baseline_off_cmd": "cd /repo && GOFLAGS=-mod=mod go test -json -vet=off -count=1 -timeout 25m ./...",
+           "baseline_off_cmd": ". /verif/env.sh && cd /repo && go test -json -vet=off -count=1 -timeout 25m ./...",
            "source_commits": [], "add_only": True},
  "engines": [{"name": "gtcheck", "path": "checker/cmd/gtcheck", "serves_properties": sorted(rules), "kind_free_text": "repository-specific static analyser over go/packages + go/ssa: dominators, must-pass-through path search, value provenance, module call graph, table extraction"}],
  "checks": checks,
